@@ -64,6 +64,7 @@ class Lazy:
     _r: Any = field(default=None, repr=False)
     _pd: bool = False
     _rd: bool = False
+    discrete_ref64: bool = False  # generated compositions: a discrete result the float64 evaluation decides differently is noise
 
     def get_perturbed(self) -> list[list[np.ndarray]]:
         if not self._pd:
@@ -144,6 +145,14 @@ def compare(
                 for pert in lazy.get_perturbed():
                     if idx < len(pert) and np.asarray(pert[idx]).shape == r.shape:
                         unstable |= np.asarray(pert[idx]) != r
+                # a discrete result that the float64 evaluation of the same function decides differently
+                # hinges on rounding noise of the intermediates, not on the inputs
+                r64 = lazy.get_ref64() if lazy.discrete_ref64 else None
+                if r64 is not None and idx < len(r64) and np.asarray(r64[idx]).shape == r.shape:
+                    try:
+                        unstable |= np.asarray(r64[idx]).astype(r.dtype) != r
+                    except Exception:  # noqa: BLE001
+                        pass
                 bad = neq & ~unstable
                 i0 = tuple(int(v[0]) for v in np.nonzero(neq))
                 c = Cmp(
